@@ -103,3 +103,48 @@ def get_bonding_capacity(element: str, charge: int):
     ensures(_current_constraints == old(_current_constraints) and same_dict_state(_current_constraints),
             tag="C11:lookup-no-effect")
     ensures(typed(result, 'int') and result >= 0, tag="C01:capacity-nonnegative-int")
+
+
+INDEX_SYMBOLS = ("[C]", "[Ring1]", "[Ring2]", "[Branch1]", "[=Branch1]", "[#Branch1]", "[Branch2]", "[=Branch2]",
+                 "[#Branch2]", "[O]", "[N]", "[=N]", "[=C]", "[#C]", "[S]", "[P]")
+FIXED_SYMBOLS = ("[Ring1]", "[=Ring1]", "[Branch1]", "[=Branch1]", "[#Branch1]", "[Ring2]", "[=Ring2]", "[Branch2]",
+                 "[=Branch2]", "[#Branch2]", "[Ring3]", "[=Ring3]", "[Branch3]", "[=Branch3]", "[#Branch3]")
+
+
+@spec
+def atom_symbols_for(result, key, cap):
+    # for an atom type listed in the table: every bond prefix whose order does not exceed its capacity
+    return (implies(1 <= cap, ("[" + key + "]") in result) and implies(2 <= cap, ("[=" + key + "]") in result)
+            and implies(3 <= cap, ("[#" + key + "]") in result))
+
+
+@contract("selfies/bond_constraints.py::get_semantic_robust_alphabet", props=["C07", "C11"])
+def get_semantic_robust_alphabet():
+    # the un-memoised body; the lru_cache in front of it is covered by the memo-coherence clauses of
+    # set_semantic_constraints (cleared on every table change) - that it hands out the cached set is a known finding
+    requires(table_ok(_current_constraints))
+    requires(all(implies(k in _current_constraints, typed(k, 'str')) for k in anyvalue()))
+    ensures(typed(result, 'set') and fresh(result), tag="C07:alphabet-is-a-new-set")
+    ensures(all(s in result for s in INDEX_SYMBOLS), tag="C07:all-sixteen-index-symbols")
+    ensures(all(s in result for s in FIXED_SYMBOLS), tag="C07:branch-and-ring-symbols")
+    # stated over the positions of the table's (abstract) iteration order; every key of the table sits at one of them
+    ensures(all(implies(dict_key_at(_current_constraints, j) != "?",
+                        atom_symbols_for(result, dict_key_at(_current_constraints, j),
+                                         _current_constraints[dict_key_at(_current_constraints, j)]))
+                for j in range(len(_current_constraints))), tag="C07:every-listed-atom-with-every-admissible-prefix")
+    ensures(_current_constraints == old(_current_constraints) and same_dict_state(_current_constraints),
+            tag="C11:alphabet-does-not-touch-the-table")
+    invariant("for (a, c), (b, m) in product(_current_constraints.items(), bonds.items())",
+              typed(alphabet_subset, 'set') and fresh(alphabet_subset)
+              and _current_constraints == old(_current_constraints) and same_dict_state(_current_constraints)
+              and all(implies(dict_key_at(_current_constraints, j) != "?",
+                              atom_symbols_for(alphabet_subset, dict_key_at(_current_constraints, j),
+                                               _current_constraints[dict_key_at(_current_constraints, j)]))
+                      for j in range(div(_k, 3)))
+              and implies(dict_key_at(_current_constraints, div(_k, 3)) != "?" and mod(_k, 3) >= 1
+                          and 1 <= _current_constraints[dict_key_at(_current_constraints, div(_k, 3))],
+                          ("[" + dict_key_at(_current_constraints, div(_k, 3)) + "]") in alphabet_subset)
+              and implies(dict_key_at(_current_constraints, div(_k, 3)) != "?" and mod(_k, 3) >= 2
+                          and 2 <= _current_constraints[dict_key_at(_current_constraints, div(_k, 3))],
+                          ("[=" + dict_key_at(_current_constraints, div(_k, 3)) + "]") in alphabet_subset),
+              tag="rows-done-and-partial-row")
